@@ -28,16 +28,32 @@ SWALLOWS = {
 # its callers, a method split in two): a handler of the same owner (class or module) with the same exception type whose
 # guarded statements and handler body are the same up to local names and logging - the *fingerprint* below.
 def handler_fingerprint(try_node, h):
+    """What is guarded and what the handler does, up to local names, logging and the way the result is passed on: the calls
+    made in the try body, in order, and the handler's statements other than logging, `pass`, `return [None]` and `x = None`
+    (a handler that merely falls through, returns None or resets the result local swallows in the same way)."""
     import copy
 
-    def strip(stmts):
-        out = []
-        for s_ in stmts:
-            if isinstance(s_, ast.Expr) and isinstance(s_.value, ast.Call) and (dotted(s_.value.func) or '').startswith('logger.'):
-                continue
-            out.append(s_)
-        return out
-    mod = ast.Module(body=copy.deepcopy(strip(try_node.body)) + [ast.Expr(value=ast.Constant(value='<handler>'))] + copy.deepcopy(strip(h.body)), type_ignores=[])
+    def trivial(s_):
+        if isinstance(s_, ast.Pass):
+            return True
+        if isinstance(s_, ast.Expr) and isinstance(s_.value, ast.Call) and (dotted(s_.value.func) or '').startswith('logger.'):
+            return True
+        if isinstance(s_, ast.Return) and (s_.value is None or (isinstance(s_.value, ast.Constant) and s_.value.value is None)):
+            return True
+        if isinstance(s_, ast.Assign) and isinstance(s_.value, ast.Constant) and s_.value.value is None and all(isinstance(t, ast.Name) for t in s_.targets):
+            return True
+        return False
+    calls = []
+    for s_ in try_node.body:
+        if isinstance(s_, ast.Expr) and isinstance(s_.value, ast.Call) and (dotted(s_.value.func) or '').startswith('logger.'):
+            continue
+        cs = [c for c in ast.walk(s_) if isinstance(c, ast.Call)]
+        outer = [c for c in cs if not any(c is not o and any(c is x for x in ast.walk(o)) for o in cs)]
+        if outer:
+            calls += [ast.Expr(value=copy.deepcopy(c)) for c in outer]
+        else:
+            calls.append(copy.deepcopy(s_))
+    mod = ast.Module(body=calls + [ast.Expr(value=ast.Constant(value='<handler>'))] + copy.deepcopy([s_ for s_ in h.body if not trivial(s_)]), type_ignores=[])
     names = {}
     for n in ast.walk(mod):
         if isinstance(n, ast.Name) and n.id != 'self':
@@ -288,8 +304,12 @@ def success_has_one_writer(ctx):
             and not q.in_handler(c) and not any(field == 'finalbody' for _, field in q.enclosing_trys(c))
         ctx.ob(cf.qualname, c, ok, f'set_result must run exactly when the final task\'s _main returned normally - success of the final step overrides an earlier cancel (guards={q.guard_texts(c)})')
         arg = c.args[0] if c.args else None
-        v = q.resolve_local(cf, arg) if arg is not None else None
-        src = isinstance(v, ast.Call) and (dotted(v.func) or '').endswith('_main')
+        if isinstance(arg, ast.Name):
+            # every definition of the argument that can reach this call is the value _main returned
+            rd = q.reaching_defs(g, cf, arg.id, g.nodes_of(c))
+            src = bool(rd) and all(isinstance(v, ast.Call) and (dotted(v.func) or '').endswith('_main') for _, v in rd)
+        else:
+            src = isinstance(arg, ast.Call) and (dotted(arg.func) or '').endswith('_main')
         ctx.ob(cf.qualname, f'set_result argument {norm(arg)}', bool(src), 'the result must be the return value of _main')
 
 
